@@ -41,6 +41,16 @@ static string step(JsonDocument& doc, JsonDocument& doc2, const string& text, in
   // shared read-only document: copy source and filter
   doc2.clear(); doc2["copy"] = SHARED.as<JsonVariantConst>(); doc2["k"] = SHARED.as<JsonVariantConst>()["list"][salt % 3];
   string cj; serializeJson(doc2, cj); out += " " + std::to_string(cj.size()) + ":" + hexs(cj.substr(0, 24));
+  // many indexed and keyed reads of the shared read-only document (two arrays, interleaved positions): any cache or cursor kept inside the
+  // shared document or the library would be raced here
+  { unsigned long acc = 0; JsonVariantConst sh = SHARED.as<JsonVariantConst>();
+    for (int j = 0; j < 60; j++) {
+      JsonVariantConst a = sh["list"][(salt + j) % 3], b = sh["nested"]["a"][(salt + 2 * j) % 3], c = sh["wide"][(salt * 7 + j * 5) % 48];
+      acc = acc * 31 + (unsigned long)a.as<long>() + (a.is<const char*>() ? 7 : 0);
+      acc = acc * 31 + (unsigned long)b.as<long>() + (b.isNull() ? 3 : 0) + (b.as<bool>() ? 11 : 0);
+      acc = acc * 31 + (unsigned long)c.as<long>();
+    }
+    out += " " + std::to_string(acc); }
   DeserializationError e3 = deserializeJson(doc2, text, DeserializationOption::Filter(SHARED_FILTER.as<JsonVariantConst>()), DeserializationOption::NestingLimit(20));
   string fj; serializeJson(doc2, fj); out += string(" ") + e3.c_str() + " " + hexs(fj);
   out += string(" ") + (doc.as<JsonVariantConst>() == SHARED.as<JsonVariantConst>() ? "1" : "0");
@@ -54,6 +64,7 @@ int main(int argc, char** argv) {
   string line;
   while (std::getline(std::cin, line)) if (!line.empty()) texts.push_back(unhex(line));
   deserializeJson(SHARED, "{\"list\":[1,\"two\",3.5],\"name\":\"shared document\",\"nested\":{\"a\":[true,null,-7],\"b\":\"\\u00e9\"},\"big\":12345678901234}");
+  { JsonArray w = SHARED["wide"].to<JsonArray>(); for (int i = 0; i < 48; i++) w.add(1000000 + i); }
   deserializeJson(SHARED_FILTER, "{\"a\":true,\"list\":[true],\"*\":{\"b\":true}}");
   // sequential reference
   std::vector<std::vector<string>> seq(nthreads);
